@@ -8,19 +8,23 @@ CONFIG = {
             "Families: mro = ALL class DAGs with <=4 (quick) / <=5 (thorough) user classes, <=3 bases each, every base order, object optionally written, cut at the first rejection; "
             "look = every accepted hierarchy with <=3 classes (thorough: also 4 classes with kinds absent/value/classmethod) x every placement of one name as absent/value/function/classmethod/staticmethod x a read on every class and on an instance of every class; "
             "seq = every history of <=2 (quick) / <=3 (thorough) read/write/delete operations on the diamond followed by a read-out of every object; "
-            "hist = VERIF_SEED-derived hierarchies (<=6 classes), 2 names x 4 kinds, <=3 instances, histories of <=10 operations incl. runtime writes of functions/classmethods/staticmethods. "
-            "non-trivial = the hierarchy is rejected, or uses multiple inheritance, or a read binds a function/classmethod/staticmethod, or the history writes/deletes; distinct = distinct input lines",
+            "hist = VERIF_SEED-derived hierarchies (<=6 classes), 2 names x 4 kinds + the hooks __getattr__/__setattr__/__init__ (each with probability 1/12 per class), <=3 instances, histories of <=10 operations incl. runtime writes of functions/classmethods/staticmethods, reads of a missing name, isinstance with tuples of <=3 classes/instances; "
+            "hook (round 2) = every accepted hierarchy with <=2 (thorough: 3) classes x every subset of {__getattr__, __setattr__, __init__} as functions in every class (+ non-callable hooks, hooks reached through a second base) x reads of a defined and a missing name, writes and read-back on every class and instance; third section of V = the log of hook calls (function tag, self, name, value); "
+            "isin (round 2) = isinstance of an instance of every class of the diamond against every single class/instance and every tuple of <=2 (thorough: 3) of them, plus Type.IsSubtype with an instance receiver (Go API, Base chain); "
+            "api (round 2) = the look and hook hierarchies with <=2 classes and every 4th hist case once more with the classes built by calling py.TypeNew(py.TypeType, (name, bases, dict)) directly and the operations done through py.Call / py.GetAttrString / py.SetAttrString / py.DeleteAttrString instead of compiled statements. "
+            "non-trivial = the hierarchy is rejected, or uses multiple inheritance, or a read binds a function/classmethod/staticmethod, or the history writes/deletes, or a user hook is called / an instantiation fails, or isinstance gets a tuple; distinct = distinct input lines",
     "trusted_base": [
         "Lean 4.33.0 kernel; axioms allowed: propext, Classical.choice, Quot.sound (audited per theorem on every run)",
         "lean/GPy/C16/Spec.lean: my transcription of C3 (merge of linearisations, Python 2.3 MRO document) and of Python's attribute access (instance namespace, then first definition along the class's linearisation; binding of functions/classmethods/staticmethods; writes and deletes local to the object)",
         "lean/GPy/C16/Model.lean: hand transliteration of py/type.go (pmerge, tail_contains, check_duplicates, mro_implementation, IsSubtype, Lookup, NativeGetAttrOrNil, GetAttrOrNil, the parts of TypeNew/Ready that fill Bases/Dict/Mro), py/internal.go (GetAttrString, SetAttrString, DeleteAttrString), the M__get__ of Function/ClassMethod/StaticMethod and builtin isinstance; tied to /repo by the correspondence run only",
         "Go maps behave as finite maps (modelled as association lists); Go pointer identity of *py.Type = (table, index) in the model",
-        "harness/c16.go and checks/common.py (rendering of cases to `class` statements, canonicalisation of results by identity to K<i>/i<j> names)",
+        "harness/c16.go and checks/common.py (rendering of cases to `class` statements or to direct py.TypeNew calls, canonicalisation of results by identity to K<i>/i<j> names)",
+        "user hook FUNCTIONS are not looked into: a __getattr__/__setattr__ call is observed as (function, self, name[, value]); the body of a generated __init__ is fixed to `self.a = <tag>` in model, specification and harness alike",
     ],
     "assumptions": [
-        "attribute names are not dunder names: the hooks __getattribute__/__getattr__/__setattr__/__delattr__/__init__, the reflective M__xxx__ lookup and the dunder entries of type.__dict__/object.__dict__ are outside the model (the model answers `unmodelled`; the harness asserts type/object dictionaries hold dunder names only)",
+        "the hooks __getattr__/__setattr__/__init__ are followed when they are plain functions (or non-callable values) defined in class bodies; __getattribute__/__delattr__, classmethod/staticmethod objects as hooks, hooks written at run time, the reflective M__xxx__ lookup and the dunder entries of type.__dict__/object.__dict__ are outside the model (the model answers `unmodelled`; the harness asserts type/object dictionaries hold dunder names only)",
         "all classes have metatype `type`: CalculateMetaclass, custom `mro` methods of a metatype, __slots__, best_base layout conflicts are not modelled",
-        "values are plain strings, Python functions, classmethod(function), staticmethod(function); user-defined descriptors and properties do not exist in gpython's Python level",
+        "values are plain strings, Python functions, classmethod(function), staticmethod(function); user-defined descriptors, `property` and `super` do not exist in gpython's Python level (the builtins are commented out); *py.Property objects placed into a class dictionary by Go code are not modelled (observed: on read the instance dictionary wins over a Property of the type, unlike Python's data-descriptor precedence; writes do go to the Property)",
     ],
     "exhaustive": False,
     "dist_tokens": 1,
